@@ -91,6 +91,17 @@ def main():
         raise TranslationError('gistructinfo.c: method offset expressions not recognised')
     lines.append('(* gistructinfo.c: offset = g_struct_get_field_offset (info, blob->n_fields) + n * header->function_blob_size *)')
     lines.append('Definition acc_g_struct_info_get_method (fields_end : Z) (e : cnt) (n : Z) : Z := fields_end + n * function_blob_size e.')
+    # gitypeinfo.c: the element type of an array, the n-th type of a list or hash table (recognised textually, fail-closed); the
+    # builder's side are the member offsets of ArrayTypeBlob.type and ParamTypeBlob.type in Gen/BlobLayout.v
+    tsrc = ' '.join(re.sub(r'/\*.*?\*/', '', open(os.path.join(REPO, 'girepository', 'gitypeinfo.c')).read(), flags=re.S).split())
+    mt = re.search(r'case GI_TYPE_TAG_ARRAY: case GI_TYPE_TAG_GLIST: case GI_TYPE_TAG_GSLIST: case GI_TYPE_TAG_GHASH: '
+                   r'return _g_type_info_new \(\(GIBaseInfo\*\)info, rinfo->typelib, (rinfo->offset \+ sizeof \(ParamTypeBlob\) '
+                   r'\+ sizeof \(SimpleTypeBlob\) \* n)\);', tsrc)
+    if not mt:
+        raise TranslationError('gitypeinfo.c: g_type_info_get_param_type offset expression not recognised')
+    lines.append('(* gitypeinfo.c: g_type_info_get_param_type  --  offset = %s *)' % mt.group(1))
+    lines.append('Definition acc_g_type_info_get_param_type (base sizeof_ParamTypeBlob sizeof_SimpleTypeBlob n : Z) : Z := '
+                 'base + sizeof_ParamTypeBlob + sizeof_SimpleTypeBlob * n.')
     # the builder's alignment macro
     nsrc = open(os.path.join(REPO, 'girepository', 'girnode.c')).read()
     m = re.search(r'^#define\s+ALIGN_VALUE\s*\(\s*(\w+)\s*,\s*(\w+)\s*\)\s*\\?\s*\n?\s*(.*)$', nsrc, flags=re.M)
